@@ -34,4 +34,10 @@ m = dict(base)
 m["checks"] = checks
 m["not_applicable"] = sorted(na, key=lambda n: n["property_id"])
 json.dump(m, open(os.path.join(HERE, "MANIFEST.json"), "w"), indent=1)
+# known findings: one committed file assembled from known_findings.d/*.json
+kf = []
+for p in sorted(glob.glob(os.path.join(HERE, "known_findings.d", "*.json"))):
+    kf += json.load(open(p)).get("findings", [])
+json.dump({"comment": "assembled by tools/mkmanifest.py from known_findings.d/*.json; read-only at run time. status=known suppresses exactly the listed signature (KNOWN-FINDING line, exit 0); status=fixed suppresses nothing.",
+           "findings": kf}, open(os.path.join(HERE, "known_findings.json"), "w"), indent=1)
 print("MANIFEST.json: %d checks, %d not_applicable" % (len(checks), len(na)))
